@@ -291,11 +291,11 @@ def model(case, mode="final"):
     for i, (st, p) in enumerate(zip(stages, plans), 1):
         if p["infile"] is not None:
             stdin_lines = pre[p["infile"]].splitlines()
-        elif i > 1:
+        elif i > 1 and not st.get("early"):
             stdin_lines = pipe_lines
         else:
-            stdin_lines = []
-        chunks = {"out": H.stage_stdout(i, stdin_lines, list(st.get("args", ())) + list(st.get("args_after", ())), H._bulk(st) == "out"), "err": H.stage_stderr(i, H._bulk(st) == "err")}
+            stdin_lines = []  # first stage, or a consumer that leaves without reading
+        chunks = {"out": H.stage_stdout(i, stdin_lines, list(st.get("args", ())) + list(st.get("args_after", ())), {"out": True, "drip": H.FILL_DRIP}.get(H._bulk(st), False)), "err": H.stage_stderr(i, H._bulk(st) == "err")}
         pipe_lines = []
         for stream in ("out", "err"):
             d = p[stream]
@@ -918,6 +918,29 @@ def gen_cases(thorough):
         case["meta"]["kind"] = f"thr.{style}.bulk-{bulk}|{ck}.slow"
         case["stages"][t - 1].update(style=style, bulk=bulk)
         case["stages"][t]["slow"] = True
+
+    # 13. early-exit consumer x alias producer that keeps writing stdout AFTER the consumer left:
+    #     the 'drip' alias writes stderr, then 6 flushed stdout chunks over ~0.9 s; with `o> f e>p`
+    #     the pipe only carries stderr, so nothing stops the producer - f must be complete
+    drip_sets = [("OUT_W", "E2P"), ("E2P", "OUT_W"), ("OUT_A", "E2P")]
+    drip_combos = list(itertools.product(drip_sets, ("ext", "thr"), ("bare", "$()", "!()") if thorough else ("bare", "$()"), ("first2", "mid3") if thorough else ("first2",)))
+    for classes, ck, cap, pos in drip_combos:
+        redirs, pre = redirs_for(classes)
+        t, n = POSITIONS[pos]
+        add("earlyexit", "+".join(classes), " ".join(r["op"] for r in redirs), "thr", pos, cap, redirs, pre, (ck,) * (n - 1), True, "existing")
+        case = cases[-1]
+        case["meta"]["kind"] = f"thr.drip|{ck}.early"
+        case["stages"][t - 1]["bulk"] = "drip"
+        case["stages"][t]["early"] = True
+
+    # 14. quick tier only (thorough has the whole product for unthreadable aliases): `e>o` in every
+    #     spelling on an unthreadable alias under the capturing forms, where stderr must follow
+    #     stdout into the capture
+    if not thorough:
+        for sp in UNIVERSE:
+            if classify(sp) == "E2O":
+                for cap in ("$()", "!()", "@$()"):
+                    add("product", "E2O", sp, "unthr", "only", cap, [{"op": sp}], {}, (), sp in DOCUMENTED)
     return cases
 
 
@@ -994,7 +1017,7 @@ def run(ctx):
         )
     ctx.log(f"{len(cases)} cases ({len(UNIVERSE)} spellings)")
     # cases with a sleeping consumer are dispatched one per chunk so that they spread over all workers
-    slow_idx = [i for i, c in enumerate(cases) if any(st.get("slow") for st in c["stages"])]
+    slow_idx = [i for i, c in enumerate(cases) if any(st.get("slow") or st.get("bulk") == "drip" for st in c["stages"])]
     slow_set = set(slow_idx)
     fast_idx = [i for i in range(len(cases)) if i not in slow_set]
     res = [None] * len(cases)
